@@ -2567,8 +2567,13 @@ impl<E: Effect> Executor<E> {
         // The message clone enters the select_state.receiving slot.
         self.retain(&message);
         if let Some(state) = &mut proc.select_state {
-            state.receiving = Some((receive_idx, message.clone()));
+            // A lower-priority source's filter may still hold its message (a higher-priority
+            // source became ready while it ran); release that message as the slot is replaced.
+            let previous = state.receiving.replace((receive_idx, message.clone()));
             state.cursors[receive_idx] = msg_idx;
+            if let Some((_, held)) = &previous {
+                self.release(held);
+            }
         }
 
         // The message (parameter) and source (the receive function) enter the call's stack frame.
